@@ -93,18 +93,19 @@ def run(ctx: Ctx):
     a, b = ast.unparse(it.iter.slice), it.target.id
 
     def residual_of(scope_nodes, names):
-        """[(expression, {name: A/B})]: `residual = <expr>` in the scope, or a call of a one-expression closure
-        `residual(x, y)` of max_flow (the closure's expression with its parameters standing for the arguments)"""
+        """[(expression, {name: A/B}, node)]: the residual of an arc, wherever the scope computes it - `residual = <expr>`,
+        or the arithmetic expression over `capacity[..][..]` written in place (a helper the baseline does not know has
+        been inlined by then)"""
         out = []
+        seen = set()
         for n in scope_nodes:
             if isinstance(n, ast.Assign) and isinstance(n.targets[0], ast.Name) and n.targets[0].id == "residual":
                 out.append((n.value, names, n))
-            elif isinstance(n, ast.Call) and isinstance(n.func, ast.Name) and n.func.id in f.children and n.func.id != "bfs":
-                h = f.children[n.func.id]
-                body = [x for x in h.node.body if not (isinstance(x, ast.Expr) and isinstance(x.value, ast.Constant))]
-                if len(body) == 1 and isinstance(body[0], ast.Return) and body[0].value is not None and len(n.args) == len(h.params) == 2 and all(isinstance(x, ast.Name) for x in n.args):
-                    ctx.touch(h)
-                    out.append((body[0].value, {p_: names.get(x.id, x.id) for p_, x in zip(h.params, n.args)}, n))
+                seen |= {id(x) for x in ast.walk(n.value)}
+        for n in scope_nodes:
+            if isinstance(n, ast.BinOp) and id(n) not in seen and all(any(isinstance(x, ast.Subscript) and isinstance(x.value, ast.Subscript) and ast.unparse(x.value.value) == tbl for x in ast.walk(n)) for tbl in ("capacity", "flow")):
+                out.append((n, names, n))
+                seen |= {id(x) for x in ast.walk(n)}
         return out
 
     rs = residual_of(list(own_nodes(bfs.node)), {a: "A", b: "B"})
@@ -118,7 +119,7 @@ def run(ctx: Ctx):
     import re as _re
 
     t = ast.unparse(bfs.node)
-    ctx.ob("C08-O2", "R21 search discipline", bfs, "search follows only arcs with positive residual to unvisited nodes, marks on enqueue, FIFO", bool(_re.search(r"residual(\([^()]*\))? > 0", t)) and "not in visited" in t and "visited.add(" in t and "popleft()" in t, "", node=bfs.node)
+    ctx.ob("C08-O2", "R21 search discipline", bfs, "search follows only arcs with positive residual to unvisited nodes, marks on enqueue, FIFO", (bool(_re.search(r"residual(\([^()]*\))? > 0", t)) or any(isinstance(c_, ast.Compare) and c_.left is rs[0][2] and isinstance(c_.ops[0], ast.Gt) and ast.unparse(c_.comparators[0]) == "0" for c_ in own_nodes(bfs.node))) and "not in visited" in t and "visited.add(" in t and "popleft()" in t, "", node=bfs.node)
 
     # max-flow = min-cut is certified by the failing search and by nothing else: the loop runs until bfs() finds no path
     mloops = [n for n in own_nodes(f.node) if isinstance(n, ast.While) and any(isinstance(c, ast.Call) and ast.unparse(c.func) == "bfs" for c in ast.walk(n.test))]
@@ -166,6 +167,7 @@ def run(ctx: Ctx):
         from sa.guards import atom_of
 
         res_txt = "residual" if isinstance(rs[0][2], ast.Assign) else ast.unparse(rs[0][2])
+        res_txt = res_txt if isinstance(rs[0][2], (ast.Assign, ast.Call)) else f"({res_txt})"
         want_at = {atom_of(f"{b} not in visited"), atom_of(f"{res_txt} > 0")}
         extra = sorted(a for a in at if a not in want_at and not a.startswith("IN-LOOP:") and a not in ("T:queue", atom_of("node != sink")))
         ctx.ob("C08-O5", "R21 search discipline", bfs, "a neighbour is enqueued under exactly `unvisited and residual > 0`", want_at <= at and not extra, f"guards {sorted(at)}", node=e)
